@@ -520,7 +520,7 @@ def st_lut(draw):
 
 
 OPS = ["split", "single", "routes", "lin", "rescale", "other", "lutform",
-       "dataset", "copyfalse", "lutrewrite"]
+       "dataset", "copyfalse", "lutrewrite", "tuple32"]
 
 
 @st.composite
@@ -948,6 +948,7 @@ def _run(spec, rec, d):
     E0 = np.asarray(E0, dtype=float)
     cx.inband = res["band"]
     cx.edge = res["edge"]
+    cx.sd = np.asarray(res["sd"], dtype=float)
     if cx.n_edge:
         rec.cls("pt:on-triangle-edge")
         rec.cls("events:on-triangle-edge", cx.n_edge)
@@ -1147,6 +1148,33 @@ def _do_op(op, spec, rec, cx, cfg, v, route, x_in, d_in, x_ref, d_ref, temps, E0
             rec.check(eqnan(e, E0), f"lutform/{fname}/{tag}",
                       lambda: f"the same LUT handed over as {fname} gives a different "
                               "result than as " + spec["lut"]["how"])
+    elif name == "tuple32":
+        # documented input form (array, meta) with a user dtype: a float32 array must
+        # give (to float32 accuracy) what the same numbers give as float64
+        rec.cls("op:tuple32")
+        with warnings.catch_warnings():
+            warnings.simplefilter("ignore")
+            lut, meta_ = emod.load_lut(str(cx.lut_file))
+        lut32 = np.array(lut, dtype=np.float32)
+        lut64 = np.array(lut32, dtype=np.float64)
+        keep32 = lut32.copy()
+        vnum = dict(medium=float(v["eta"]), temperature=None, visc_model=None)
+        e32 = call(cx, rec, x_in, d_in, cfg, vnum, lut_arg=(lut32, dict(meta_)))
+        e64 = call(cx, rec, x_in, d_in, cfg, vnum, lut_arg=(lut64, dict(meta_)))
+        rec.check(np.array_equal(lut32, keep32), f"immutable/tuple-lut-f4/{cx.tag}",
+                  "the caller's float32 LUT array was modified")
+        far = np.abs(cx.sd) > 1e-2           # away from the hull boundary
+        both = far & np.isfinite(e32) & np.isfinite(e64)
+        nanflip = far & (np.isnan(e32) != np.isnan(e64))
+        rec.check(not nanflip.any(), f"tuple-f4/support/{cx.tag}",
+                  lambda: f"{int(nanflip.sum())} of {int(far.sum())} events away from the "
+                          f"hull are NaN with the float32 LUT but not with the same "
+                          f"numbers as float64 (or vice versa)")
+        with np.errstate(invalid="ignore"):
+            dev = np.abs(e32 - e64) > 2e-3 * np.abs(e64)
+        rec.check(not (both & dev).any(), f"tuple-f4/value/{cx.tag}",
+                  lambda: f"float32 LUT deviates by more than 2e-3 relative for "
+                          f"{int((both & dev).sum())} events")
     elif name == "lutrewrite":
         # A user LUT handed over as *path* is the file content at call time:
         # rewriting the file at the same path (other E values) must be seen by
